@@ -99,6 +99,9 @@ def items(tier, seed):
             for jc in JOIN_CHUNKS:
                 for cs in CHUNK_SHAPES:
                     out.append({"fam": "B", "tier": tier, "cls": cls, "jm": jm, "jc": jc, "cs": list(cs)})
+    import gc
+
+    gc.freeze()  # keep the forked workers' collector off the parent's heap (fewer copy-on-write faults)
     return out
 
 
